@@ -1,8 +1,8 @@
 """C19 - generated protocol objects are immutable snapshots."""
 from eolib.data.eo_writer import EoWriter
 from eolib.data.eo_reader import EoReader
-from vh_gentree import gen_unit
-from vh_refsem import collect_kwargs, pascal
+from vh_gentree import gen_unit, gen_value
+from vh_refsem import collect_kwargs, pascal, build_value
 
 
 def no_assign(obj, name, value, tag):
@@ -50,28 +50,42 @@ def frozen_fields(types, instrs, obj, tree, tag):
                         frozen(types, c[3], cur, want, tag + "." + fld + "_data")
 
 
+ENTRY = {"mode": False}
+
+
 def ser(cls, obj):
     w = EoWriter()
+    w.string_sanitization_mode = ENTRY["mode"]
     cls.serialize(w, obj)
     return w.to_bytearray()
 
 
+def grow_lists(types, instrs, kw, tag, cfg):
+    """append a fresh valid element to every list the object was built from (also to empty ones)"""
+    n = 0
+    for ins in instrs:
+        if ins[0] == "array":
+            v = kw[ins[1]]
+            if isinstance(v, list):
+                extra = gen_value(types, ins[2], None, False, tag + "." + ins[1] + "#extra", cfg, False, "any", {})
+                v.append(build_value(types, ins[2], extra))
+                n += 1
+        elif ins[0] == "chunked":
+            n += grow_lists(types, ins[1], kw, tag, cfg)
+    return n
+
+
 def immutable(types, desc, cfg):
     cls = load_class(desc["module"], desc["name"])
-    tree = gen_unit(types, desc["instrs"], desc["name"], cfg, False, "any")
+    ENTRY["mode"] = desc["entry"]
+    tree = gen_unit(types, desc["instrs"], desc["name"], cfg, desc["entry"], "any")
     kw = {}
     collect_kwargs(types, cls, desc["instrs"], tree, kw)
     obj = cls(**kw)
     a = ser(cls, obj)
     check(ser(cls, obj) == a, "serializing the same instance twice yields identical bytes")
     # the caller keeps mutating the iterables it built the object from
-    touched = 0
-    for name in list(kw.keys()):
-        v = kw[name]
-        if isinstance(v, list):
-            if len(v) > 0:
-                v.append(v[0])
-                touched += 1
+    touched = grow_lists(types, desc["instrs"], kw, desc["name"], cfg)
     if touched > 0:
         check(ser(cls, obj) == a, "appending to the caller's list does not change the object")
     for name in list(kw.keys()):
@@ -83,7 +97,9 @@ def immutable(types, desc, cfg):
     frozen(types, desc["instrs"], obj, tree, desc["name"])
     check(ser(cls, obj) == a, "failed assignments leave the object unchanged")
     # deserialized instances behave the same
-    back = cls.deserialize(EoReader(a))
+    rd = EoReader(a)
+    rd.chunked_reading_mode = desc["entry"]
+    back = cls.deserialize(rd)
     b = ser(cls, back)
     check(ser(cls, back) == b, "serializing a deserialized instance twice yields identical bytes")
     no_assign(back, "byte_size", 0, desc["name"] + "(deserialized).byte_size")
